@@ -149,6 +149,8 @@ def eval_case(ctx, case):
     if case.get("override_false"):
         case = dict(case, td_by_name={i["name"]: {"skip-ensure": False, "stub-impl": False, "with-resets": False} for k, i in enumerate(ifaces) if k % 2 == 0})
     root, info, usable, note = drvrun.prepare(ctx, case, ifaces, ctx.known)
+    if root is None and isinstance(note, dict) and note.get("crash"):
+        return Verdict.violated(note["crash"], note, ["tool-crash-during-generation"])
     if root is None:
         return Verdict.skipped(note) if usable == [] else Verdict.inconclusive(note)
     if not usable:
